@@ -311,6 +311,8 @@ func init() {
 		if err := json.Unmarshal(raw, &c); err != nil {
 			return failf("REPLAY-HARNESS-ERROR: %v", err)
 		}
+		fixNil(&c.Inst)
+		fixNils(c.List)
 		fl, herr := checkC12(&c)
 		if herr != "" {
 			return failf("REPLAY-HARNESS-ERROR: %s", herr)
